@@ -754,10 +754,15 @@ class ScalaFile:
         return st[2]
 
     def parent_of(self, type_name: str) -> Optional[str]:
-        """`class|object X ... extends P` -> 'P' (None if no extends clause)."""
+        """`class|object X ... extends P` -> 'P' (None if no extends clause).  A `class` declaration wins over its companion object."""
         t = self.raw
+        found: Dict[str, Optional[str]] = {}
         for i in range(len(t) - 1):
             if t[i][0] == 'kw' and t[i][1] in ('object', 'class') and t[i + 1][0] == 'id' and t[i + 1][1] == type_name:
+                kind = t[i][1]
+                if kind in found:
+                    raise AnalysisError(f'{self.rel}: several `{kind} {type_name}` declarations')
+                found[kind] = None
                 j = i + 2
                 depth = 0
                 while j < len(t):
@@ -768,13 +773,15 @@ class ScalaFile:
                         depth -= 1
                     elif depth == 0 and k == 'kw' and x == 'extends':
                         if j + 1 < len(t) and t[j + 1][0] == 'id':
-                            return t[j + 1][1]
+                            found[kind] = t[j + 1][1]
+                            break
                         raise AnalysisError(f'{self.rel}: unrecognised extends clause of {type_name}')
                     elif depth == 0 and ((k == 'p' and x == '{') or (k == 'kw' and x in ('object', 'class', 'def', 'val'))):
-                        return None
+                        break
                     j += 1
-                return None
-        raise AnalysisError(f'{self.rel}: no `class/object {type_name}`')
+        if not found:
+            raise AnalysisError(f'{self.rel}: no `class/object {type_name}`')
+        return found['class'] if 'class' in found else found['object']
 
 
 _files: Dict[str, ScalaFile] = {}
